@@ -59,7 +59,20 @@ def field_writes(row, adt, name):
     return [e for e in effective_writes(row) if e[2] and e[2][-1] == F(adt, name)]
 
 
-def cond_info(row):
+def _status_source(t):
+    """'get' when the status belongs to the value found by a map lookup (the previous value), 'upd' when it belongs to a
+    symbolic argument, 'entry' when it belongs to an occupied entry"""
+    for s in T.subterms(t):
+        if s[0] == "call":
+            nm = sym.strip_all_generics(s[1]).split("::")[-1]
+            if nm in ("get", "get_versioned"):
+                return "get"
+            if nm in ("get_mut", "entry", "into_mut"):
+                return "entry"
+    return "upd"
+
+
+def cond_info(row, status_from=("get", "upd")):
     """classification of a mutator path: key present?, value equal?, previous status"""
     info = {"present": None, "eq": None, "status": None, "entry": None, "stale": None}
     for c in row.cond:
@@ -69,8 +82,9 @@ def cond_info(row):
                 info["present"] = c[2] == "Some"
             elif t[0] == "call" and sym.strip_all_generics(t[1]).endswith("::entry") and c[3]:
                 info["entry"] = c[2]
-            elif T.last_field(t) == (VV, "status"):
-                info["status"] = (c[2], c[3])
+            elif T.last_field(t) == (VV, "status") and _status_source(t) in status_from:
+                if info["status"] is None:
+                    info["status"] = (c[2], c[3])
         elif c[0] == "truth":
             t = c[1]
             if t[0] == "op" and t[1] == "Eq" and (T.last_field(t[2]) == (VV, "value") or T.last_field(t[3]) == (VV, "value")):
